@@ -406,7 +406,7 @@ func genCaseFor(p Profile) func(t *rapid.T) Case {
 					if rec, ok := e.in[op.F]; ok && !rec.maybe {
 						op.Nonce = rec.nonce
 					}
-				case cls == 4: // a nonce certainly recorded as dead
+				case cls == 4 || cls == 5: // a nonce certainly recorded as dead
 					var ds []string
 					for dk, d := range m.dead {
 						if d.from <= m.now && m.now < d.until-ms {
@@ -534,6 +534,12 @@ func genCaseFor(p Profile) func(t *rapid.T) Case {
 				}
 				for _, cc := range m.cache {
 					edges = append(edges, cc.staleAt)
+				}
+				for _, d := range m.dead {
+					// the window in which a replayed nonce is certainly recorded as dead
+					if d.from < d.until-2*ms {
+						edges = append(edges, d.from+1, d.until-2*ms)
+					}
 				}
 				var fut []int64
 				for _, x := range edges {
